@@ -180,6 +180,12 @@ def mk_binop(op, a, b):
         return pack(a[1], const(1))
     if op == "BitAnd" and b == const(1) and a[0] == "pack":
         return a[2]
+    if op == "Rem" and b == const(2) and a[0] == "pack":
+        return a[2]
+    if op == "Div" and b == const(2) and a[0] == "pack":
+        return a[1]
+    if op in ("Mul", "MulUnchecked") and (b == const(2) or a == const(2)):
+        return pack(a if b == const(2) else b, const(0))
     if op in ("Eq", "Ne") and a[0] == "pack" and b[0] == "pack":
         # (h1,p1) == (h2,p2)  with constant parities
         if is_const(a[2]) and is_const(b[2]):
@@ -932,6 +938,10 @@ class PX:
                 names = rv.get("fields") or [str(i) for i in range(len(ops))]
                 if len(names) != len(ops):
                     names = [str(i) for i in range(len(ops))]
+                # eta-reduction: S { f1: x.f1, .., fn: x.fn } (every field, in order, of one struct value x) is x itself
+                if ops and all(isinstance(o, tuple) and o and o[0] == "field" and o[2] == n for n, o in zip(names, ops)) \
+                        and len({o[1] for o in ops}) == 1 and len(self.facts.adts.get(rv["adt"], {}).get("variants", [])) == 1:
+                    return ops[0][1]
                 return agg("adt", rv["adt"], rv["variant"], tuple(zip(names, ops)))
             if a in ("closure", "coroutine"):
                 names = rv.get("fields") or []
